@@ -1363,6 +1363,7 @@ pub fn check(tier: &str, seed: u64) -> i32 {
         .set("outcomes", stats.counters_json("c19.outcome."))
         .set("lookups", stats.counters_json("c19.lookups."))
         .set("reach", stats.counters_json("c19.reach."))
+        .set("reach_probes_at_zero", crate::report::probes_at_zero(&stats, &["c19.reach.damaged_file_still_parses","c19.fault.interleaved_rewrite.effective(read_mixed_two_versions)","c19.fault.truncate.effective(bytes_changed)","c19.fault.bit_flip.effective(bytes_changed)","c19.fault.lost_block.effective(bytes_changed)","c19.fault.torn_rewrite.effective(bytes_changed)","c19.fault.read_error.effective.Other","c19.fault.read_error.effective.Interrupted","c19.fault.hostile_footer.injected","c19.fault.remove_file.injected","c19.outcome.error_handled(parse_rejected)","c19.outcome.offset"]))
         .set("distinct_fault_kind_sequences", Json::Int(stats.distinct("c19.interleavings") as i128))
         .set("distinct_hostile_footers", Json::Int(stats.distinct("c19.distinct_footers") as i128))
         .set("scenarios_per_hour", Json::Int((scenarios as f64 / wall.max(1e-9) * 3600.0) as i128))
